@@ -34,6 +34,18 @@ CLAIMS = {
    text="Proof (Lean 4): compaction preserves the answer of every later reader at every level and configuration (C06_compaction_tip: a dropped tombstone at the last level never lets an older value reappear), keeps the newest version above the last level (C06_nonbottom_keeps_newest), invents nothing (sublist); rearrangements that move whole components (rotation, flush, reopen) leave the flattened version list and hence every answer unchanged. Tied to the code by the exhaustive per-key correspondence and by store-level histories whose physical placements vary while answers are judged against the placement-free specification.",
    note="Trusted: Lean kernel + standard axioms; transcription of the per-key rule; compaction table selection, range-skip predicates and cache transparency are validated by the store stream, not proved (partial).",
    technique="Lean 4 proof of placement-independence per key + metamorphic/store-level differential correspondence", ref="DESIGN.md §6 C06"),
+ "C02": dict(
+   text="Invariant proof (Lean 4, every run of commits, rotations, flushes and WAL clean-ups): under H_noStraddle every acknowledged batch is in what recovery rebuilds from a process-crash image (C02_acked_survive_process_crash_partial), via the pairing invariant between WAL segments, memtables and the manifest log_number; record-level framing, repair and append-after-reopen come from the C12 theorems. The excluded family (rotation between a batch's WAL append and the end of its apply) is a genuine defect: kernel-checked witness, deterministic replay on the real store, known finding. Crash images at every yield point inside commit / rotation / flush / manifest replacement / compaction are reopened with the real TreeBuilder.",
+   note="Trusted: Lean kernel + standard axioms; record-level transcription of the flush / WAL clean-up / replay protocol; process-crash model only — power loss (fsync facts) is neither modelled nor explored yet: partial.",
+   technique="Lean 4 invariant proof over a durable-state machine + crash-image enumeration at yield points", ref="DESIGN.md §6 C02"),
+ "C03": dict(
+   text="Proof (Lean 4): under H_noStraddle what recovery rebuilds is exactly the set of batches whose WAL record was written — a prefix of the commit order containing every acknowledged batch and at most the one in flight (C03_recovered_is_prefix_partial, C03_unacked_at_most_one_partial); a batch is one WAL record, read back whole or not at all (C12). Crash images inside commit, flush, manifest replacement and compaction (between output write, manifest switch and input unlink) must scan to the state before or after the interrupted transaction.",
+   note="Trusted: as C02. Compaction's effect on contents is C01/C06's theorem; its crash-atomicity (single manifest switch) is validated by the images, not proved. Power loss not covered: partial.",
+   technique="Lean 4 invariant proof (prefix consistency of the durable-state machine) + crash-image enumeration", ref="DESIGN.md §6 C03"),
+ "C07": dict(
+   text="Proof (Lean 4, record level): everything recovered lies below the next sequence/batch number, so commits after reopening are ordered after everything recovered (C07_recovered_below_next_partial); clean-up after recovery does not change what a second recovery rebuilds (C07_recover_after_cleanup). Reopen itself is exercised: every crash image and every clean close at level shapes produced by flush/compaction is opened, written to, closed and opened again with the real TreeBuilder; two genuine load-time defects (bogus manifest validations) found this way were repaired.",
+   note="Trusted: as C02; the manifest validations are exercised, not modelled; reopening with a different option set and crashes inside recovery itself are not explored yet: partial.",
+   technique="Lean 4 invariant proof (sequence floor, idempotent recovery) + reopen of crash/clean images on the real store", ref="DESIGN.md §6 C07"),
 }
 props = [json.loads(l) for l in open('/verif/properties.jsonl')]
 hooks = subprocess.run(["git", "-C", "/repo", "log", "--format=%h %s"], capture_output=True, text=True).stdout.splitlines()
